@@ -17,6 +17,13 @@ Monitors
       stack.zero-thickness   inserting a zero-thickness layer at a non-final position changes neither r nor t
       stack.half-wave        inserting d = lambda / (2 n cos(theta_layer)) leaves |r| and |t| unchanged
       batched.eq-loop        stack arrays of shape (L, 2, *trail) == the per-element loop, normal and oblique incidence
+      stack.unit-invariance  class G: every thickness and the wavelength expressed in another length unit (factor 1e-12 .. 1e12, random
+                             mantissa) leave r and t (complex) unchanged and equal to the Airy recursion; scalar and batched calls
+      stack.special-values   class H: layers of index exactly 1 (first / inner / all inner / exit) with ambient 1 and ambient != 1, a layer at the
+                             ambient index, equal neighbours (== merged layer), thickness exactly 0 (first / all / exit), exact quarter / half
+                             wave, aoi exactly 0 / 45 / 89.999 (int and float), polarisation in either letter case; batched stacks with
+                             index-1 / zero-thickness entries in only some elements
+      batched.sizes          class I: every batch size 1 .. 8 (thorough 16) x every layer count 1 .. 8, 1-D and (B,1) / (1,B) / (B,B) batches
       forms.*                class E (argument-form equivalence): integer-valued stacks handed over as python ints in tuples /
                              lists, int8..int64 / uint8 ndarrays, float32, complex, object and mixed containers, wavelength /
                              angle / ambient index as python int / float / numpy scalars / 0-d arrays, upper-case polarisation,
@@ -49,7 +56,11 @@ RULE = ('a single-precision warm-up first (config.precision = 32 and float32 sta
         'wavelength / angle / ambient index as python int / float / numpy scalars / 0-d arrays, upper-case polarisation, positional / '
         'keyword / re-ordered keyword calls, aoi and ambient_index omitted vs passed as their documented defaults after calls with other '
         'explicit values, the same argument objects twice, all-integer calls; x normal / oblique incidence x both polarisations; '
-        'integer batches of size 1, 2, 3; Fresnel / Snell / Brewster functions with integer indices.  A case is non-trivial unless both '
+        'integer batches of size 1, 2, 3; Fresnel / Snell / Brewster functions with integer indices; UNITS (class G): stacks of 1..20 layers with '
+        'all thicknesses and the wavelength multiplied by 1e-12..1e12 x random mantissa; SPECIAL VALUES (class H): 12 kinds of coincidence (index '
+        'exactly 1 / equal to the ambient / equal neighbours / thickness exactly 0 / exact quarter and half wave / matched exit) x ambient {1.0, 1, 1.2, '
+        '1.33, 1.5} x aoi {0, 0.0, 45, 45.0, 89.999, 30.0, 60, 89.0} (kept 1 deg inside the critical angle when a layer is below the ambient index) x '
+        'letter case of the polarisation x list / ndarray / Fortran containers; BATCH SIZES (class I): batch 1..8 (thorough 16) x layers 1..8.  A case is non-trivial unless both '
         'media of a single interface are equal; distinct = distinct descriptor (all numeric parameters)')
 ASSUMPTIONS = ['the last stack entry is the exit medium (documented usage); its thickness only adds a phase to t',
                'power transmittance into a lossless exit medium is Re(n_e cos th_e)/(n0 cos th0) |t|^2 for both polarisations',
@@ -62,6 +73,10 @@ ASSUMPTIONS = ['the last stack entry is the exit medium (documented usage); its 
                'Fresnel and thin (<= 4 layers, <= 0.5 wavelengths each) stacks vs the Airy reference to 1e-3, batched vs loop to 1e-4 '
                '(measured round-off 2.4e-6, 1.7e-7, 5.1e-7, 0); thick or deep single-precision stacks are only held to the energy law',
                'double precision: 1e-10 up to 8 layers, 1e-9 for 9..40 layers (measured <= 8.7e-13 against the Airy recursion)',
+               'grazing propagation (cos(theta) < 1e-3 in the ambient or in a layer, i.e. aoi 89.999 deg): the degrees -> sin -> arcsin -> cos chain is '
+               'ill-conditioned like 1 / cos^2; the Airy comparison of the special-value cases uses TOL x (1e-3 / cos)^2 there (measured <= 2.2e-10 at '
+               'cos = 1.7e-5, allowed 3.4e-7; r moves by 3e-4 between 89.99 and 89.999 deg) and the cases are counted as an event; the energy contract '
+               'keeps its full tolerance',
                'argument forms: the forms in STACK_FORMS / SCALAR_FORMS are the ones the current tree accepts and treats as the same '
                'input (established by running every combination against the Airy recursion); float16 and object arrays and a '
                'numpy.float32 angle are not forms of the same double-precision input and are outside the workload']
@@ -70,7 +85,8 @@ REQUIRED = ['snell_aor.law', 'stack.energy-lossless', 'stack.energy-absorbing', 
             'stack.zero-thickness', 'stack.half-wave', 'batched.eq-loop',
             'precision32.single-interface', 'precision32.airy-reference', 'precision32.batched-eq-loop', 'precision32.energy',
             'history.airy-reference', 'history.repeat', 'stack.argument-untouched', 'stack.deep',
-            'forms.stack', 'forms.scalars', 'forms.call', 'forms.eq-canonical', 'forms.batched', 'forms.fresnel']
+            'forms.stack', 'forms.scalars', 'forms.call', 'forms.eq-canonical', 'forms.batched', 'forms.fresnel',
+            'stack.unit-invariance', 'stack.special-values', 'batched.sizes']
 
 CTX = None
 TOL = 1e-10          # observed round-off on the pinned tree: <= 1e-13 (stack vs Airy), <= 4e-15 (energy)
@@ -432,6 +448,9 @@ def _run(ctx):
     stacks(ctx, tf, rng)
     batched(ctx, tf, rng)
     histories(ctx, tf)
+    unit_scales(ctx, tf)           # class G: thickness / wavelength rescaled together
+    specials(ctx, tf)              # class H: index exactly 1, thickness exactly 0, exact angles, letter case
+    batch_sizes(ctx, tf)           # class I: every batch size x layer count
     forms(ctx, tf)
 
     # critical_angle: exercised for reach only, never asserted (argument order ambiguous)
@@ -590,7 +609,7 @@ CONTAINERS = ['list', 'ndarray', 'complex-ndarray', 'fortran-ndarray', 'strided-
 
 def stacks(ctx, tf, rng):
     Lmax = ctx.pick(20, 40)
-    nst = ctx.share(ctx.pick(3000, 100000))
+    nst = ctx.share(ctx.pick(3000, 220000))
     for it in range(nst):
         # every layer count 1..Lmax first (twice: lossless and with absorbing inner layers), then random with a tail of deep stacks
         if it < 2 * Lmax:
@@ -799,6 +818,323 @@ def histories(ctx, tf):
     ctx.note('histories', f'{nh} histories on one stack array object each (layers 1..20), one quantity changed per call')
 
 
+# --- F. hardening pass 3: unit rescaling (G), special values (H), batch sizes (I) -----------------------------------------------
+UNIT_DECADES = [1e-12, 1e-9, 1e-6, 1e-3, 1e3, 1e6, 1e9, 1e12]
+
+
+def regime(k):
+    return 'tiny' if k < 1e-2 else 'huge' if k > 1e2 else 'unit'
+
+
+def _special_key(ctx, key, part):
+    """`key` when the plain workloads already showed it in this process (the defect is not specific), else `key` with the class
+    label of the sweep (`scale:...` / `special:...` / `size:...`) in front of the symptom."""
+    if key in ctx.violations or not part:
+        return key
+    for marker in ('/ne-airy-reference/', '/energy-'):
+        if marker in key:
+            return key.replace(marker, f'/{part}{marker}', 1)
+    return key + '/' + part
+
+
+def unit_scales(ctx, tf):
+    """Class G.  Only the ratio thickness / wavelength enters the coefficients: the same stack with every thickness and the
+    wavelength expressed in another unit (factor 1e-12 .. 1e12, mantissa random -- metres instead of microns, nanometres, ...)
+    must return the same r and t (complex, to round-off) and still equal the Airy recursion; lossless and absorbing, 1..20
+    layers, normal / oblique, list / ndarray / complex ndarray containers, scalar and batched calls."""
+    rng = ctx.rng('c17-units')
+    nc = ctx.share(ctx.pick(360, 80000))
+    for it in range(nc):
+        g = np.random.default_rng(ctx.subseed(rng))
+        L = 1 + it % 8 if it % 5 else int(g.integers(9, 21))
+        absorb = L > 1 and it % 3 == 2
+        wl = float(g.uniform(0.3, 1.5))
+        st = random_stack(g, L, absorb, wl)
+        if it % 7 == 0:
+            st[int(g.integers(L))] = (st[0][0], 0.0)            # an exactly-zero thickness stays exactly zero in every unit
+        n0 = 1.0 if g.random() < 0.5 else float(g.uniform(1, 1.7))
+        nmin = min(np.real(n) for n, _ in st)
+        amax = max_aoi(n0, nmin)
+        aoi = 0.0 if it % 4 == 0 else float(g.uniform(0, amax))
+        k = UNIT_DECADES[(it // 2) % len(UNIT_DECADES)] * float(g.uniform(1, 9.99))
+        reg = regime(k)
+        container = CONTAINERS[it % 3]
+        stk = [(n, d * k) for n, d in st]
+        wlk = wl * k
+        batched_call = it % 4 == 3
+        desc = {'wl': 'unit-scale', 'layers': L, 'absorbing': absorb, 'n0': n0, 'aoi': aoi, 'wavelength': wl, 'unit_factor': k, 'container': container,
+                'batched': batched_call, 'stack': [[n, d] for n, d in st] if L <= 6 else {'layers': L},
+                'class': f'scale:units-{reg}:L{L}:{"absorbing" if absorb else "lossless"}:{aoi_class(aoi)}' + (':batched' if batched_call else '')}
+        ctx.case(desc)
+        ac = aoi_class(aoi)
+        TL = tol_layers(L)
+        for pol in 'sp':
+            with ctx.guard(f'C17/stack/{pol}/scale:units-{reg}', desc):
+                if batched_call:
+                    # batch of three: the stack in the original unit, in the other unit is a separate call (the wavelength is a scalar)
+                    arr = np.asarray(st, dtype=complex if absorb else float)
+                    b0 = np.stack([arr, arr, arr], axis=-1)
+                    b0[:, 1, 1] *= 0.5
+                    bk = b0.copy()
+                    bk[:, 1, :] *= k
+                    r0, t0 = tf.multilayer_stack_rt(b0, wl, pol, aoi=aoi, ambient_index=n0)
+                    r1, t1 = tf.multilayer_stack_rt(bk, wlk, pol, aoi=aoi, ambient_index=n0)
+                    r0, t0, r1, t1 = (np.asarray(v) for v in (r0, t0, r1, t1))
+                else:
+                    res = judge_stack(ctx, tf, desc, st, as_container(st, container), wl, pol, aoi, n0, lambda key: key)
+                    if res is None:
+                        continue
+                    res1 = judge_stack(ctx, tf, dict(desc, unit='rescaled'), stk, as_container(stk, container), wlk, pol, aoi, n0,
+                                       lambda key: _special_key(ctx, key, f'scale:units-{reg}'))
+                    r0, t0 = (np.asarray(v) for v in res)
+                    r1, t1 = (np.asarray(v) for v in res1)
+                ctx.observe('stack.unit-invariance')
+                ok = r0.shape == r1.shape and bool(np.all(np.abs(r1 - r0) <= TL)) and bool(np.all(np.abs(t1 - t0) <= TL * max(1.0, float(np.max(np.abs(t0))))))
+                if not ok:
+                    ctx.violation(f'C17/stack/{pol}/scale:units-{reg}/rt-depend-on-length-unit/{ac}', f'{pol}: r or t changes when every thickness and the '
+                                  'wavelength are expressed in another length unit (same ratios)', desc, r=[np.ravel(r0)[0], np.ravel(r1)[0]],
+                                  t=[np.ravel(t0)[0], np.ravel(t1)[0]])
+    ctx.note('unit_scales', {'factors': UNIT_DECADES, 'cases': nc})
+
+
+SPECIAL_AOI = [0, 0.0, 45, 45.0, 89.999, 30.0, 60, 89.0]
+POL_CASES = {'s': ['s', 'S'], 'p': ['p', 'P']}
+
+
+def specials(ctx, tf):
+    """Class H.  Stacks at the values where a shortcut is tempting: a layer whose index is exactly 1 (first / inner / exit medium)
+    with ambient 1 and with ambient != 1 at oblique incidence, a layer whose index equals the ambient index exactly, two adjacent
+    layers with exactly the same index (must equal the merged layer), thickness exactly 0 (one layer, every layer, the exit
+    medium), exact quarter- and half-wave layers, angles exactly 0 / 45 / 89.999 deg as python int and float, the polarisation in
+    either letter case -- scalar and batched calls, each judged against the Airy recursion and the energy contract."""
+    rng = ctx.rng('c17-special')
+    kinds = ['index-1-first', 'index-1-inner', 'index-1-exit', 'index-1-all-inner', 'index=ambient', 'equal-neighbours', 'all-thickness-0',
+             'first-thickness-0', 'exit-thickness-0', 'quarter-wave', 'half-wave', 'matched-exit']
+    ambients = [1.0, 1, 1.2, 1.33, 1.5]
+    k = -1
+    for rep in range(ctx.pick(2, 240)):
+        for kind in kinds:
+            for n0 in ambients:
+                for ai, aoi in enumerate(SPECIAL_AOI):
+                    k += 1
+                    if not ctx.mine(k):
+                        continue
+                    g = np.random.default_rng(ctx.subseed(rng))
+                    L = [2, 3, 4, 6][(k // 3) % 4] if rep else [2, 3][k % 2]
+                    wl = 1.0 if k % 3 == 0 else float(g.uniform(0.4, 1.6))
+                    nlo = max(float(n0), 1.0) if aoi > 40 else 1.0          # steep angles: no layer below the ambient index (no critical angle)
+                    st = [(float(g.uniform(max(nlo, 1.3), 4)), float(g.uniform(0.05, 2.0)) * wl) for _ in range(L)]
+                    one = [1, 1.0][k % 2]
+                    if kind == 'index-1-first':
+                        st[0] = (one, st[0][1])
+                    elif kind == 'index-1-inner':
+                        st[min(1, L - 2)] = (one, st[1][1])
+                    elif kind == 'index-1-exit':
+                        st[-1] = (one, st[-1][1])
+                    elif kind == 'index-1-all-inner':
+                        st = [(one, d) for _, d in st[:-1]] + [st[-1]]
+                    elif kind == 'index=ambient':
+                        st[int(g.integers(0, L))] = (float(n0), st[0][1])
+                    elif kind == 'equal-neighbours':
+                        j = int(g.integers(0, L - 1))
+                        st[j + 1] = (st[j][0], st[j + 1][1])
+                    elif kind == 'all-thickness-0':
+                        st = [(n, [0, 0.0][k % 2]) for n, _ in st]
+                    elif kind == 'first-thickness-0':
+                        st[0] = (st[0][0], 0)
+                    elif kind == 'exit-thickness-0':
+                        st[-1] = (st[-1][0], 0.0)
+                    elif kind in ('quarter-wave', 'half-wave'):
+                        # exactly representable: n = 2, optical thickness exactly lambda / 4 (lambda / 2) at normal incidence
+                        st[0] = (2.0, wl / (8.0 if kind == 'quarter-wave' else 4.0))
+                    elif kind == 'matched-exit':
+                        st[-1] = (float(n0), st[-1][1])
+                    nmin = min(float(np.real(n)) for n, _ in st)
+                    has_one = kind.startswith('index-1')
+                    a_eff = float(aoi)
+                    if nmin < float(n0):
+                        # a layer below the ambient index: stay 1 deg (at least) inside the critical angle
+                        a_eff = min(a_eff, math.degrees(math.asin(nmin / float(n0))) - 1.0)
+                        a_arg = a_eff
+                    else:
+                        a_arg = aoi                                         # the exact python int / float of the table
+                    stf = [(float(n), float(d)) for n, d in st]
+                    polform = k % 2
+                    container = ['list', 'ndarray', 'fortran-ndarray'][(k // 2) % 3]
+                    arg = st if container == 'list' else as_container(stf, container)
+                    spec = 'index=1' if has_one else {'index=ambient': 'index=ambient', 'matched-exit': 'index=ambient', 'equal-neighbours': 'equal-neighbours',
+                                                      'all-thickness-0': 'thickness=0', 'first-thickness-0': 'thickness=0', 'exit-thickness-0': 'thickness=0',
+                                                      'quarter-wave': 'exact-quarter-or-half-wave', 'half-wave': 'exact-quarter-or-half-wave'}[kind]
+                    if has_one and float(n0) != 1.0:
+                        spec = 'index=1+ambient!=1'
+                    if a_eff > 89.9:
+                        spec = 'aoi=89.999'                                 # grazing incidence is the rarer coincidence: it names the case
+                    desc = {'wl': 'special', 'kind': kind, 'n0': n0, 'n0_type': type(n0).__name__, 'aoi': a_arg, 'aoi_type': type(a_arg).__name__, 'wavelength': wl,
+                            'stack': [[n, d] for n, d in st], 'container': container, 'class': f'special:{kind}:ambient={"1" if float(n0) == 1 else "not-1"}:aoi={aoi}'}
+                    ctx.case(desc)
+                    for pol in 'sp':
+                        parg = POL_CASES[pol][polform]
+                        part = f'special:{spec}'
+                        with ctx.guard(f'C17/stack/{pol}/special:{spec}', desc):
+                            att = 0.0
+                            r, t = tf.multilayer_stack_rt(arg, wl, parg, aoi=a_arg, ambient_index=n0)          # energy: contract
+                            r, t = complex(r), complex(t)
+                            rr, tt = R.stack_rt(stf, wl, pol, math.radians(a_eff), float(n0))
+                            ctx.observe('stack.special-values')
+                            ac = aoi_class(a_eff)
+                            er = min(abs(r - rr), abs(r + rr)) if pol == 'p' else abs(r - rr)
+                            # grazing propagation in the ambient or inside a layer (cos(theta) < 1e-3: aoi 89.999 deg): the degrees -> radians ->
+                            # sin -> arcsin -> cos chain is ill-conditioned like 1 / cos^2 -- tolerance widened accordingly (measured 1.3e-10 with a
+                            # layer at the ambient index, 2.2e-10 with a layer 1 % above it, at cos = 1.7e-5; allowed 3.4e-7; r moves by 3e-4
+                            # between 89.99 and 89.999 deg, so a clamp or a shortcut to r = -1 is still seen) and counted
+                            cmin = min([math.cos(math.radians(a_eff))] +
+                                       [math.sqrt(max(1e-300, 1 - (float(n0) * math.sin(math.radians(a_eff)) / n_) ** 2)) for n_, _ in stf])
+                            TS = TOL * max(1.0, (1e-3 / cmin) ** 2)
+                            if cmin < 1e-3:
+                                ctx.event('special: grazing propagation inside a layer, Airy comparison at the widened tolerance')
+                            bad = None
+                            if not er <= TS:
+                                bad = 'r'
+                            elif not abs(abs(t) - abs(tt)) <= TS * max(1.0, abs(tt)):
+                                bad = 't'
+                            if bad:
+                                key = f'C17/stack/{pol}/ne-airy-reference/{bad}/{ac}'
+                                if polform and key not in ctx.violations:
+                                    # upper-case polarisation: is it the letter case?  (same call in lower case)
+                                    with quiet():
+                                        r_l, t_l = tf.multilayer_stack_rt(arg, wl, pol, aoi=a_arg, ambient_index=n0)
+                                    er_l = min(abs(complex(r_l) - rr), abs(complex(r_l) + rr)) if pol == 'p' else abs(complex(r_l) - rr)
+                                    if er_l <= TS and abs(abs(complex(t_l)) - abs(tt)) <= TS * max(1.0, abs(tt)):
+                                        key, part = 'C17/stack/form:polarization=upper-case', ''
+                                ctx.violation(_special_key(ctx, key, part), f'{pol}: {bad} of a stack at a special value ({kind}, ambient {n0}, aoi {a_arg}) differs '
+                                              'from the Airy recursion', desc, got=[r, abs(t)], ref=[rr, abs(tt)])
+                                continue
+                            if kind == 'equal-neighbours':
+                                merged = stf[:j] + [(stf[j][0], stf[j][1] + stf[j + 1][1])] + stf[j + 2:]
+                                if j + 1 == L - 1:
+                                    merged = stf[:j] + [(stf[j][0], stf[j + 1][1])]          # merged into the exit medium: its own thickness drops out of |t|
+                                r2, t2 = tf.multilayer_stack_rt(merged, wl, pol, aoi=a_arg, ambient_index=n0)
+                                ctx.require('stack.special-values', abs(complex(r2) - r) <= TS and abs(abs(complex(t2)) - abs(t)) <= TS * max(1.0, abs(t)),
+                                            f'C17/stack/{pol}/special:equal-neighbours/not-merged-layer/{ac}',
+                                            'two adjacent layers of exactly the same index do not act as one layer of the summed thickness', desc)
+    # batched stacks at special values: index-1 layers in SOME elements of the batch, zero thickness in some, both letter cases
+    kb = -1
+    for rep in range(ctx.pick(3, 400)):
+        for n0 in (1.0, 1.33):
+            for aoi in (0.0, 35.0):
+                for B in (1, 2, 3, 5):
+                    kb += 1
+                    if not ctx.mine(kb):
+                        continue
+                    g = np.random.default_rng(ctx.subseed(rng))
+                    L = int(g.integers(1, 6))
+                    n = g.uniform(1.4, 4, (L, B))
+                    d = g.uniform(0, 2, (L, B))
+                    mask1 = g.random((L, B)) < 0.35
+                    n[mask1] = 1.0                                     # exactly 1 in some elements only
+                    d[g.random((L, B)) < 0.3] = 0.0
+                    if kb % 3 == 0:
+                        n[:, 0] = 1.0                                  # one element: every layer (and the exit medium) is vacuum
+                    stack = np.stack([n, d], axis=1)
+                    desc = {'wl': 'special-batched', 'batch': B, 'layers': L, 'n0': n0, 'aoi': aoi, 'stack': stack.tolist() if stack.size <= 40 else {'shape': list(stack.shape)},
+                            'class': f'special:batched:index=1-in-some-elements:B{B}:{aoi_class(aoi)}:ambient={"1" if n0 == 1 else "not-1"}'}
+                    ctx.case(desc)
+                    for pol in 'sp':
+                        parg = POL_CASES[pol][(kb // 2) % 2]
+                        spec = 'index=1+ambient!=1' if n0 != 1.0 else 'index=1'
+                        with ctx.guard(f'C17/batched/{pol}/special:{spec}', desc):
+                            r, t = tf.multilayer_stack_rt(stack, 0.8, parg, aoi=aoi, ambient_index=n0)
+                            r, t = np.asarray(r), np.asarray(t)
+                            ctx.observe('stack.special-values')
+                            ok = r.shape == (B,) and t.shape == (B,)
+                            for b_ in range(B if ok else 0):
+                                rr, tt = R.stack_rt([(float(n[l, b_]), float(d[l, b_])) for l in range(L)], 0.8, pol, math.radians(aoi), n0)
+                                er = min(abs(r[b_] - rr), abs(r[b_] + rr)) if pol == 'p' else abs(r[b_] - rr)
+                                ok = ok and bool(er <= TOL) and bool(abs(abs(t[b_]) - abs(tt)) <= TOL * max(1.0, abs(tt)))
+                            if not ok:
+                                key = f'C17/batched/{pol}/special:{spec}/ne-airy-reference/{aoi_class(aoi)}'
+                                prior = [k_ for k_ in ctx.violations if k_.startswith(f'C17/batched/{pol}/') and k_.endswith('/' + aoi_class(aoi))
+                                         and '/special:' not in k_]
+                                if prior:
+                                    key = prior[0]          # the plain batched workload already showed it: not specific to the special values
+                                elif parg != pol:
+                                    # upper-case polarisation: the same call in lower case decides whether the letter case is the mechanism
+                                    with quiet():
+                                        rl_, tl_ = (np.asarray(v) for v in tf.multilayer_stack_rt(stack, 0.8, pol, aoi=aoi, ambient_index=n0))
+                                    okl = rl_.shape == (B,)
+                                    for b_ in range(B if okl else 0):
+                                        rr, tt = R.stack_rt([(float(n[l, b_]), float(d[l, b_])) for l in range(L)], 0.8, pol, math.radians(aoi), n0)
+                                        er = min(abs(rl_[b_] - rr), abs(rl_[b_] + rr)) if pol == 'p' else abs(rl_[b_] - rr)
+                                        okl = okl and bool(er <= TOL) and bool(abs(abs(tl_[b_]) - abs(tt)) <= TOL * max(1.0, abs(tt)))
+                                    if okl:
+                                        key = 'C17/stack/form:polarization=upper-case'
+                                ctx.violation(key, 'batched stack with layers of index exactly 1 / '
+                                              'thickness exactly 0 in some elements differs from the Airy recursion', desc, got_shape=list(r.shape))
+    ctx.note('specials', {'kinds': kinds, 'ambient': [str(a) for a in ambients], 'aoi': [str(a) for a in SPECIAL_AOI]})
+
+
+def batch_sizes(ctx, tf):
+    """Class I.  Every batch size 1 .. 8 (thorough 1 .. 16) x every layer count 1 .. 8 -- in particular batch == layers and
+    batch == 2 (a (2, 2, 2) stack array is ambiguous with 2 x 2 matrices) -- as 1-D batches and as (B, 1) / (1, B) / (B, B)
+    2-D batches, real and absorbing, normal and oblique: the batched call == the per-element loop == the Airy recursion."""
+    rng = ctx.rng('c17-batch-sizes')
+    Bmax = ctx.pick(8, 16)
+    k = -1
+    for rep in range(ctx.pick(1, 24)):
+        for L in range(1, 9):
+            for B in range(1, Bmax + 1):
+                for ob in (False, True):
+                    k += 1
+                    if not ctx.mine(k):
+                        continue
+                    g = np.random.default_rng(ctx.subseed(rng))
+                    trail = [(B,), (B,), (B, 1), (1, B), (B,), (B, B) if B <= 4 else (B,)][(k // 2 + rep) % 6]
+                    cplx = (L + B + rep) % 3 == 0
+                    n = g.uniform(1.45, 4, (L,) + trail)
+                    d = g.uniform(0, 2, (L,) + trail)
+                    d[g.random(d.shape) < 0.1] = 0.0
+                    if cplx:
+                        n = n + 1j * g.uniform(0, 0.4, n.shape)
+                        n[-1] = n[-1].real
+                    n0 = 1.0 if g.random() < 0.5 else float(g.uniform(1, 1.4))
+                    aoi = float(g.uniform(1, 89)) if ob else 0.0
+                    wl = float(g.uniform(0.3, 1.5))
+                    stack = np.stack([n, d.astype(n.dtype)], axis=1)
+                    if len(trail) == 1:
+                        tcls = {1: '1d-len1', 2: '1d-len2'}.get(B, 'size:batch=layers' if B == L else '1d')
+                    else:
+                        tcls = '2d-1x1' if trail == (1, 1) else '2d-2x2' if trail == (2, 2) else '2d'
+                    for pol in 'sp':
+                        desc = {'wl': 'batch-sizes', 'trail': list(trail), 'layers': L, 'batch': B, 'complex': cplx, 'aoi': aoi, 'n0': n0, 'wavelength': wl, 'pol': pol,
+                                'class': f'batch-size:B{B}:L{L}:{len(trail)}d:{aoi_class(aoi)}'}
+                        ctx.case(desc)
+                        key = f'C17/batched/{pol}/{tcls}/{aoi_class(aoi)}'
+                        if tcls.startswith('size:') and f'C17/batched/{pol}/1d/{aoi_class(aoi)}' in ctx.violations:
+                            key = f'C17/batched/{pol}/1d/{aoi_class(aoi)}'       # generic 1-D batches fail too: not specific to batch == layers
+                        with ctx.guard(key, desc):
+                            r, t = tf.multilayer_stack_rt(stack, wl, pol, aoi=aoi, ambient_index=n0)
+                            r, t = np.asarray(r), np.asarray(t)
+                            rl = np.empty(trail, dtype=complex)
+                            tl = np.empty(trail, dtype=complex)
+                            ra = np.empty(trail, dtype=complex)
+                            for ix in np.ndindex(*trail):
+                                s_ = [(n[(l,) + ix], d[(l,) + ix]) for l in range(L)]
+                                a, b = tf.multilayer_stack_rt(s_, wl, pol, aoi=aoi, ambient_index=n0)
+                                rl[ix], tl[ix] = complex(a), complex(b)
+                                ra[ix] = R.stack_rt([((complex(q) if cplx else float(np.real(q))), float(np.real(w))) for q, w in s_], wl, pol, math.radians(aoi), n0)[0]
+                            ctx.observe('batched.sizes')
+                            ok = ctx.close('batched.eq-loop', r, rl, key, f'batched r != per-element loop (batch {trail}, {L} layers, {pol})', desc, rtol=1e-11, scale=1.0)
+                            if ok:
+                                ok = ctx.close('batched.eq-loop', t, tl, key, f'batched t != per-element loop (batch {trail}, {L} layers, {pol})', desc,
+                                               rtol=1e-11, scale=max(1.0, float(np.max(np.abs(tl)))))
+                            if ok:
+                                er = np.minimum(np.abs(r - ra), np.abs(r + ra)) if pol == 'p' else np.abs(r - ra)
+                                ctx.require('batched.sizes', bool(np.all(er <= TOL)), _special_key(ctx, f'C17/stack/{pol}/ne-airy-reference/r/{aoi_class(aoi)}',
+                                                                                                   'size:batched'),
+                                            f'{pol}: r of a batched stack differs from the Airy recursion', desc)
+    ctx.note('batch_sizes', f'batch sizes 1..{Bmax} x layers 1..8 x normal / oblique x both polarisations')
+
+
 # --- E. argument forms ---------------------------------------------------------------------------------------------------
 # The forms multilayer_stack_rt / the Fresnel functions accept today and treat as the same mathematical input.  Established on
 # /repo@faa8443 (numpy 2.5) by running an integer-valued 4-layer stack in every form x aoi {0, 30} as python int / float /
@@ -975,9 +1311,11 @@ def forms(ctx, tf):
             names_ = culprits or list(label)
             fpart = '+'.join(f'{k_}={label[k_][1]}' for k_ in names_)
             plain = f'C17/stack/{pol}/ne-airy-reference/r/{ac}'
-            if not low and any(k_.startswith(f'C17/stack/{pol}/ne-airy-reference/') and '/form:' not in k_ and '/history' not in k_ for k_ in ctx.violations) \
-                    and bad(_try(lambda: call(canon))) is not None:
-                key = plain                   # the canonical call fails too: not a form effect
+            if not low and bad(_try(lambda: call(canon))) is not None:
+                # the canonical call fails too: not a form effect -- the key of the stack workloads (plain, or the special-value / unit sweep
+                # that already showed it for this polarisation in this process)
+                prior = [k_ for k_ in ctx.violations if k_.startswith(f'C17/stack/{pol}/') and '/ne-airy-reference/' in k_ and '/history' not in k_]
+                key = plain if (plain in ctx.violations or not prior) else prior[0]
             else:
                 key = f'C17/stack/form:{fpart}'        # the form is the mechanism label: one key whatever the polarisation / angle
             ctx.violation(key, f'multilayer_stack_rt with {fpart} differs from the Airy recursion / the canonical call ({verdict})', desc,
